@@ -199,6 +199,36 @@ def to_tt(ob, d, src):
     ob.frame()
 
 
+@scenario('C01', 'ctor.dtype', ['torchtt._tt_base.TT.__init__', 'torchtt._decomposition.to_tt', 'torchtt._decomposition.mat_to_tt'],
+          quick=[dict(src=s, dtype=dt, ttm=t) for s in ('torch', 'numpy') for dt in ('float32', 'complex128', 'complex64') for t in (False, True)], replay='tt_svd', max_paths=400)
+def ctor_dtype(ob, src, dtype, ttm):
+    """the decomposition keeps the dtype of the dense source (torch and numpy sources, tensors and operators): no core of another
+    dtype and no cast that discards an imaginary part on the way"""
+    from . import hooks
+    ex = ob.ex
+    hooks.install(ex)
+    d = 2
+    N = H.sym_sizes(ex, 'N', d)
+    M = H.sym_sizes(ex, 'M', d) if ttm else None
+    A = T.atom_tensor('A', (M + N) if ttm else N, dtype, lib=src)
+    ex.register_arg(A, 'A')
+    eps = z3.Real('eps')
+    ex.assume(eps > 0)
+    ex.assume(eps < 1)
+    ob.describe('N', N); ob.describe('M', M); ob.describe('eps', eps); ob.describe('src', src); ob.describe('dtype', dtype)
+    ob.replay_args = {'kind': 'ttm' if ttm else 'tt'}
+    args = [A, [(m, n) for m, n in zip(M, N)]] if ttm else [A]
+    x = ex.instantiate(H.tt_class(ex), args, {'eps': SymScalar(eps, 'float', 'float')})
+    ob.wf(x)
+    prove_dtype(ob, x, dtype)
+    lossy = [t for k, t in ex.notes if k == 'lossy_cast']
+    if lossy:
+        ob.fail('no_lossy_cast', 'dtype', 'a cast on the way discards information: %s' % lossy[0])
+    else:
+        ob.ok('no_lossy_cast', 'dtype')
+    ob.frame()
+
+
 @scenario('C01', 'to_tt.rmax_list', ['torchtt._tt_base.TT.__init__', 'torchtt._decomposition.to_tt'],
           quick=[dict(d=d, shape=s) for d in (2, 3) for s in (False, True)], thorough=[dict(d=d, shape=s) for d in (2, 3, 4, 5) for s in (False, True)],
           replay='tt_svd', max_paths=400)
